@@ -1,5 +1,10 @@
 //! tyv: binds the engines of tyv-model to the typstyle-core of /repo's working tree.
 
+mod c05;
+mod c17;
+mod cli;
+mod c18;
+
 use std::ops::Range;
 use std::time::{Duration, Instant};
 
@@ -63,6 +68,17 @@ fn main() {
             show(&args[2..]);
             0
         }
+        "C05" => c05::run(&report::tier_from_env(args.get(2).map(|s| s.as_str())), report::seed_from_env()),
+        "c05-worker" => c05::worker(&args[2..]),
+        "c05-ladder" => c05::ladder_worker(&args[2..]),
+        "C14" => cli::run_explore("C14", &report::tier_from_env(args.get(2).map(|s| s.as_str())), report::seed_from_env()),
+        "C15" => cli::run_explore("C15", &report::tier_from_env(args.get(2).map(|s| s.as_str())), report::seed_from_env()),
+        "C16" => cli::run_c16(&report::tier_from_env(args.get(2).map(|s| s.as_str())), report::seed_from_env()),
+        "C17" => c17::run(&report::tier_from_env(args.get(2).map(|s| s.as_str())), report::seed_from_env()),
+        "c17-one" => c17::worker_one(args[2].parse().unwrap()),
+        "c17-hist" => c17::worker_hist(args[2].parse().unwrap(), &args[3].split(',').map(|x| x.parse().unwrap()).collect::<Vec<usize>>()),
+        "c17-sched" => c17::worker_sched(&args[2..]),
+        "C18" => c18::run(&report::tier_from_env(args.get(2).map(|s| s.as_str())), report::seed_from_env()),
         id => run_check(id, args.get(2).map(|s| s.as_str()), Mode::Check),
     };
     std::process::exit(code);
